@@ -112,7 +112,8 @@ type Fn struct {
 	// (as user code that uses a second container would return). PK 0: a
 	// non-error sentinel value, 1: an error value, 2: an error value wrapping
 	// a dig missing-type error, 3: an error value wrapping a dig cycle error,
-	// 4: a string.
+	// 4: a string, 5: an error value wrapping the error of another container
+	// whose constructor panicked (a foreign PanicError).
 	EK   int `json:"ek,omitempty"`
 	PK   int `json:"pk,omitempty"`
 	Bank int `json:"bank,omitempty"` // >0: declared function bank entry (Bank-1)
